@@ -73,6 +73,14 @@ def target_functions():
     F["stp"] = ("setUp()", sset([("push", 5)]) + ["STOP"], "nonpayable")
     F["aft"] = ("afterInvariant()", [("push", 9), ("push", 1), "SSTORE", "STOP"], "nonpayable")
     F["prv"] = ("prove_it()", sset([("push", 3)]) + ["STOP"], "nonpayable")
+    # a chain of constraints reaching the stored value, appended in the order k(x,z), branch j(z), s(S,w), i(w,x):
+    # require(x == z); if (z < 5) {} ; require(S == w); require(w == x); t = S  -- two post-states with the same storage term that differ
+    # only in j(z), which is tied to the state through i and k
+    z8, w8 = arg(1) + [("push", 0xFF), "AND"], arg(2) + [("push", 0xFF), "AND"]
+    F["chain"] = ("chain(uint8,uint8,uint8)", e2e.if_then(z8 + x8 + ["EQ", "ISZERO"], e2e.revert0(), "k") + [("push", 5)] + z8 + ["LT", ("ref", "j"), "JUMPI", ("label", "j")] +
+                  e2e.if_then(w8 + S + ["EQ", "ISZERO"], e2e.revert0(), "s") + e2e.if_then(x8 + w8 + ["EQ", "ISZERO"], e2e.revert0(), "i") + S + [("push", 1), "SSTORE", "STOP"], "nonpayable")
+    # who called: t = msg.sender (a later invariant on t depends on the sender restriction of an *earlier* call)
+    F["claim"] = ("claim()", ["CALLER", ("push", 1), "SSTORE", "STOP"], "nonpayable")
     F["get"] = ("get()", S + ["PUSH0", "MSTORE"] + T + [("push", 32), "MSTORE", ("push", 64), "PUSH0", "RETURN"], "view")
     return F
 
@@ -205,7 +213,8 @@ class Project:
 
 ARG_DOMAIN = {"set(uint8)": [0, 1, 2, 3, 4, 5, 7, 9, 12, 255, 256 + 3], "rng(uint8)": [0, 2, 3, 4, 5, 7, 9, 10, 11, 12, 255],
               "setb(uint8)": [0, 1, 2, 3, 4, 5, 7, 9, 12, 255], "setw(uint256)": [0, 1, 5, 7, 2**255],
-              "eqset(uint8,uint8)": [(5, 5), (12, 12), (5, 6), (0, 0)]}
+              "eqset(uint8,uint8)": [(5, 5), (12, 12), (5, 6), (0, 0)],
+              "chain(uint8,uint8,uint8)": [(1, 1, 1), (7, 7, 7), (5, 5, 5), (1, 2, 1), (0, 0, 0), (7, 7, 1)]}
 TIME_FUNCS = ("tick", "hit", "late", "early")
 VALUE_DOMAIN = [0, 1]
 DEFAULT_SENDER = 0xBEEF
